@@ -32,6 +32,32 @@ var c11pool = []string{
 
 const c11ref = "((A:1,B:1):1,(C:1,D:1):1,E:1);"
 
+// 7 taxa: transfer distances of 0, 1 and 2 occur, so that a corrupted scratch value changes a result
+const c11ref7 = "((A:1,B:1):1,((C:1,D:1):1,(E:1,F:1):2):1,G:1);"
+
+var c11pool7 = map[int]string{
+	0: "((A:1,B:1):1,((C:1,D:1):1,(E:1,F:1):2):1,G:1);",
+	1: "((A:2,C:1):2,((B:1,E:1):1,(D:1,F:1):1):1,G:1);",
+	2: "((A:3,B:1):3,(C:1,D:1,E:1,F:2):1,G:1);",
+	6: "(((A:1,E:2):0.5,F:1):1,((C:1,B:1):1,D:1):1,G:2);",
+}
+
+func (s c11scn) ref() string {
+	if s.Taxa7 {
+		return c11ref7
+	}
+	return c11ref
+}
+
+func (s c11scn) pool(i int) string {
+	if s.Taxa7 {
+		if t, ok := c11pool7[i]; ok {
+			return t
+		}
+	}
+	return c11pool[i]
+}
+
 type c11scn struct {
 	Fam      string `json:"family"`
 	Seq      []int  `json:"trees"` // indices into the pool
@@ -44,6 +70,8 @@ type c11scn struct {
 	Switch   int    `json:"switch_cost"`
 	Choices  []int  `json:"choices,omitempty"` // schedule of the failing execution
 	Ops      []int  `json:"ops,omitempty"`     // hashmap family: operation codes per thread
+	Taxa7    bool   `json:"seven_taxa,omitempty"`
+	Deep     bool   `json:"yield_at_every_call,omitempty"` // every function entry / loop iteration of the worker threads is a scheduling point
 }
 
 func (s c11scn) hasBad() bool {
@@ -56,7 +84,14 @@ func (s c11scn) hasBad() bool {
 }
 
 func (s c11scn) label() string {
-	return fmt.Sprintf("%s seq=%v w=%d tips=%v ident=%v prod=%v", s.Fam, s.Seq, s.Workers, s.Tips, s.Ident, s.Producer)
+	d := ""
+	if s.Deep {
+		d = " deep"
+	}
+	if s.Taxa7 {
+		d += " 7taxa"
+	}
+	return fmt.Sprintf("%s seq=%v w=%d tips=%v ident=%v prod=%v%s", s.Fam, s.Seq, s.Workers, s.Tips, s.Ident, s.Producer, d)
 }
 
 // c11input builds the input channel (pre-filled and closed, or fed by a producer thread).
@@ -66,7 +101,7 @@ func c11input(s c11scn) chan tree.Trees {
 		if pi == 5 {
 			items[i] = tree.Trees{Id: i, Err: errors.New("erroneous tree record")}
 		} else {
-			items[i] = tree.Trees{Id: i, Tree: gtMustParse(c11pool[pi])}
+			items[i] = tree.Trees{Id: i, Tree: gtMustParse(s.pool(pi))}
 		}
 	}
 	if s.Producer {
@@ -92,7 +127,7 @@ func c11input(s c11scn) chan tree.Trees {
 func c11body(s c11scn, obs *string, gotErr *bool) func() {
 	return func() {
 		*obs, *gotErr = "", false
-		ref := gtMustParse(c11ref)
+		ref := gtMustParse(s.ref())
 		switch s.Fam {
 		case "compare":
 			in := c11input(s)
@@ -170,10 +205,10 @@ func c11body(s c11scn, obs *string, gotErr *bool) func() {
 				if pi == 5 {
 					sb.WriteString("((A:1,B:1):1,(C:1,D:1:1,E:1);\n") // malformed tree
 				} else {
-					sb.WriteString(c11pool[pi] + "\n")
+					sb.WriteString(s.pool(pi) + "\n")
 				}
 			}
-			files := map[string]string{"ref.nw": c11ref + "\n", "in.nw": sb.String()}
+			files := map[string]string{"ref.nw": s.ref() + "\n", "in.nw": sb.String()}
 			var args []string
 			switch s.Fam {
 			case "cli-compare":
@@ -204,7 +239,7 @@ func c11body(s c11scn, obs *string, gotErr *bool) func() {
 				if pi == 5 {
 					sb.WriteString("((A:1,B:1):1,(C:1,D:1:1,E:1);\n") // malformed tree
 				} else {
-					sb.WriteString(c11pool[pi] + "\n")
+					sb.WriteString(s.pool(pi) + "\n")
 				}
 			}
 			in := utils.ReadMultiTrees(bufReader(sb.String()), utils.FORMAT_NEWICK)
@@ -451,6 +486,19 @@ func c11scenarios(quick bool) []c11scn {
 			add(c11scn{Fam: fam, Seq: []int{1, 2}, Workers: 2, Bound: 2, Switch: 0, NumCPU: 16})
 		}
 	}
+	// deep interleaving: a preemption is possible at every function entry and loop iteration of the workers, so that state
+	// shared through callees (a hoisted scratch buffer, a package-level hasher) gives wrong RESULTS under some explored schedule
+	for _, fam := range []string{"tbe", "wcompare", "fbp", "compare"} {
+		add(c11scn{Fam: fam, Seq: []int{1, 6}, Workers: 2, Bound: 1, Switch: 1, NumCPU: 16, Deep: true})
+		add(c11scn{Fam: fam, Seq: []int{1, 2}, Workers: 2, Bound: 1, Switch: 1, NumCPU: 16, Deep: true})
+		add(c11scn{Fam: fam, Seq: []int{1, 6}, Workers: 2, Bound: 1, Switch: 1, NumCPU: 16, Deep: true, Taxa7: true})
+		add(c11scn{Fam: fam, Seq: []int{6, 2, 1}, Workers: 2, Bound: 1, Switch: 1, NumCPU: 16, Deep: true, Taxa7: true})
+		add(c11scn{Fam: fam, Seq: []int{0, 5, 1}, Workers: 2, Bound: 1, Switch: 1, NumCPU: 16, Deep: true})
+		if !quick {
+			add(c11scn{Fam: fam, Seq: []int{1, 6, 2}, Workers: 3, Bound: 1, Switch: 1, NumCPU: 16, Deep: true})
+			add(c11scn{Fam: fam, Seq: []int{1, 6}, Workers: 2, Bound: 2, Switch: 1, NumCPU: 16, Deep: true})
+		}
+	}
 	// the commands themselves (in-process CLI): an erroneous tree at each position of the compared / bootstrap file
 	for _, fam := range []string{"cli-compare", "cli-wcompare", "cli-binary", "cli-fbp", "cli-tbe"} {
 		for _, w := range []int{1, 2} {
@@ -548,7 +596,7 @@ func c11badKind(s c11scn) string {
 
 // c11explore explores one scenario; returns number of executions.
 func c11explore(c *Ctx, s c11scn) {
-	cfg := mcrt.Config{NumCPU: s.NumCPU, SwitchCost: s.Switch, Fuel: 5_000_000}
+	cfg := mcrt.Config{NumCPU: s.NumCPU, SwitchCost: s.Switch, Fuel: 5_000_000, YieldTicks: s.Deep, YieldPkg: s.Deep}
 	if s.Fam == "hashmap" {
 		cfg.YieldPkg = true
 		var hist []c11op
@@ -784,7 +832,7 @@ func init() {
 				fmt.Println("not a schedule replay:", string(raw))
 				return
 			}
-			cfg := mcrt.Config{NumCPU: s.NumCPU, SwitchCost: s.Switch, Fuel: 5_000_000, Prefix: s.Choices, TraceOps: true}
+			cfg := mcrt.Config{NumCPU: s.NumCPU, SwitchCost: s.Switch, Fuel: 5_000_000, Prefix: s.Choices, TraceOps: true, YieldTicks: s.Deep, YieldPkg: s.Deep}
 			if s.Fam == "hashmap" {
 				cfg.YieldPkg = true
 				var hist []c11op
